@@ -14,7 +14,7 @@ def bounds(t):
 
 def case(prog, params):
     B = bounds(H.tier())
-    ex = new_ex(prog)
+    ex = new_ex(prog); ex.lossy_mode = 'stop'   # targets are ASCII (stated); text that only arises from invalid UTF-8 is outside the claim
     st, req, sy = build_state(params, B)
     res = {'violations': [], 'inconclusive': [], 'samples': [], 'kinds': {}, 'reads': 0, 'accesses': 0}
     target = sy['target']
